@@ -171,7 +171,7 @@ def run_one(args):
                         'path': ob.path, 'inputs': model_inputs(ob) if ob.status == 'refuted' else None,
                         'pc_size': len(ob.pc)})
         xc = None
-        if XCHECK_PATHS > 0 and r.status == 'ok' and not c.modular:
+        if XCHECK_PATHS > 0 and r.status == 'ok' and not c.modular and getattr(c, 'crosscheck', True):
             try:
                 xc = crosscheck(I, c, r, XCHECK_PATHS)
             except Exception:
